@@ -265,6 +265,9 @@ def replay_inprocess(hname: str, config: dict, inputs: dict, prop: str):
         h.fn(c, **config)
     except PathAbort as e:
         aborted = f'{e.kind}: {e.msg}'
+    except Exception as e:
+        if not c.note_exception(e):
+            raise
     return c.failures, c.passed, aborted
 
 
